@@ -480,7 +480,7 @@ func (c *Ctx) enterBlock(s *State, fr *Frame) bool {
 			}
 		}
 		// loop frame
-		c.checkFrame(s, snap.heap, snap.mods, snap.allocBase, "loopframe", fmt.Sprintf("loop%d", ord))
+		c.checkFrame(s, snap.heap, snap.mods, snap.allocBase, "loopframe", fmt.Sprintf("loop%d", ord), b.Instrs[0].Pos())
 		return false
 	}
 	// entering the loop from outside
@@ -701,7 +701,7 @@ func (c *Ctx) atReturn(s *State, fr *Frame, res Val) {
 		menv := c.newSpecEnv(s, fr)
 		menv.vars = c.entryEnvVars
 		menv.heap = map[string]string{}
-		c.checkFrame(s, map[string]string{}, c.evalMods(menv, c.fc.Modifies), "alloc0", "frame", "")
+		c.checkFrame(s, map[string]string{}, c.evalMods(menv, c.fc.Modifies), "alloc0", "frame", "", pos)
 	}
 	c.reach(s, "reach", "return", "some return reachable")
 }
